@@ -23,8 +23,11 @@ def gen(rng, n, tier):
     import numpy as np
     for i in range(n):
         nb = rng.choice([1, 1, 2, 3, 4, 5, 6, 8])
-        style = rng.choice(["regular", "irregular", "irregular", "gapped", "gapped", "neargap", "tinygapped"])
-        bins = C.gen_bins(rng, nb, gapped=(style in ("gapped", "tinygapped")), regular=(style == "regular"))
+        style = rng.choice(["regular", "irregular", "irregular", "gapped", "gapped", "neargap", "tinygapped", "fargapped"])
+        bins = C.gen_bins(rng, nb, gapped=(style in ("gapped", "tinygapped", "fargapped")), regular=(style == "regular"))
+        if style == "fargapped":       # unit gaps at an offset of 1e6..1e9: far below a tolerance relative to the edge values
+            off = Fr(10) ** rng.choice([6, 7, 9])
+            bins = [[a + off, b + off] for a, b in bins]
         if style == "tinygapped":      # edges around 1e-6: gaps of 1e-7 are far above the tolerance of 1e-8 there
             s = Fr(1, 2 ** rng.choice([20, 22, 24]))
             bins = [[a * s, b * s] for a, b in bins]
@@ -82,7 +85,10 @@ def gen(rng, n, tier):
         dropna = "T" if rng.random() < 0.85 else "F"
         keep = "T" if rng.random() < 0.8 else "F"
         incl = "T" if rng.random() < 0.5 else "F"
+        layout = "F" if len(shape) > 1 and rng.random() < 0.4 else "C"      # memory order of the data array only
+        named = "T" if rng.random() < 0.15 else "F"                         # the (name, data) form of a pandas groupby item
         yield [["bucket", "%s/%s/%s/w%s" % (style, form.split("-")[0], malformed, wkind)], ["data", data], ["shape", shape], ["incl", incl],
+               ["layout", layout], ["named", named],
                ["wkind", wkind], ["weights", weights], ["wshape_ok", wshape_ok], ["bins", bins], ["form", form],
                ["dtype", dtype], ["keep_missed", keep], ["dropna", dropna]]
 
@@ -90,7 +96,9 @@ def impl(case):
     import numpy as np, physt
     d = sx.rec(case)
     data = np.array([sx.fl(x) for x in d["data"]], dtype=float).reshape(d["shape"])
+    if d.get("layout") == "F": data = np.asfortranarray(data) if data.ndim == 2 else np.ascontiguousarray(data.transpose(2, 1, 0)).transpose(2, 1, 0)
     if d.get("container") == "list": data = data.tolist()
+    if d.get("named") == "T": data = ("nm", data)
     kw = {}
     if d["wkind"] != "none":
         w = np.array([float(x) for x in d["weights"]], dtype=(np.int64 if d["wkind"] == "int" else np.float64))
@@ -109,6 +117,7 @@ def impl(case):
         h = physt.h1(data, bins, **kw)
     except Exception as e:
         return ["refused"]
+    if d.get("named") == "T" and h.name != "nm": return ["ok-but-name-lost"]
     return ["ok", h.frequencies.tolist(), h.errors2.tolist(), float(h.underflow), float(h.overflow), h.total,
             C.snap_bins(h)[0], str(h.dtype)]
 
